@@ -396,3 +396,29 @@ impl Layout {
         (out, changed)
     }
 }
+
+impl Layout {
+    /// Layout of an existing text (seeds): pieces are the reference scanner's tokens.
+    pub fn from_text(text: &str) -> Layout {
+        use crate::refscan::{self, RK};
+        let toks = refscan::scan(text);
+        let mask = crate::oracle::verbatim_mask(text, &toks);
+        let mut pieces = Vec::with_capacity(toks.len());
+        let mut gaps = Vec::with_capacity(toks.len() + 1);
+        let mut pos = 0;
+        for (i, t) in toks.iter().enumerate() {
+            gaps.push(text[pos..t.start].to_string());
+            let kind = match t.kind {
+                RK::LineComment => PieceKind::LineComment,
+                RK::BlockComment => PieceKind::BlockComment,
+                RK::Directive => PieceKind::Directive,
+                _ => PieceKind::Extra,
+            };
+            pieces.push(Piece { kind, text: t.text(text).to_string(), verbatim: mask[i] });
+            pos = t.end;
+        }
+        gaps.push(text[pos..].to_string());
+        let nl = if text.contains("\r\n") { "\r\n" } else { "\n" };
+        Layout { pieces, gaps, nl, regions: vec![] }
+    }
+}
